@@ -266,6 +266,10 @@ func (f *fields) del(name string) bool {
 	_, exists := f.d[name]
 	if exists {
 		delete(f.d, name)
+		if len(f.d) == 0 {
+			// no named keys left: the config is no dictionary anymore
+			f.d = nil
+		}
 	}
 	return exists
 }
